@@ -40,6 +40,7 @@ func runC04(c *kit.Ctx) {
 	r5 := c.Rule("R5", "DSN pragmas", 3)
 	r6 := c.Rule("R6", "idempotent initialisation guards", 3)
 	r7 := c.Rule("R7", "only SQLite touches the store file and its journal", 1)
+	r8 := c.Rule("R8", "a row the store inserts can be read back by the store", 4)
 
 	c04R1(c, m, r1)
 	checkTxTypestate(c, m, r2)
@@ -48,6 +49,7 @@ func runC04(c *kit.Ctx) {
 	c04R5(c, m, r5)
 	c04R6(c, m, r6)
 	c04R7(c, m, r7)
+	c04Nullability(c, m, r8)
 }
 
 // c04R7: the committed-but-not-checkpointed part of the store lives in the
